@@ -188,12 +188,72 @@ class Budget(Exception):
     pass
 
 
+def _subst_equalities(cons):
+    """exact (integrality preserving) elimination: for an equality with a unit-coefficient variable,
+    substitute that variable everywhere.  cons: list of (dict int->int, c)."""
+    for _ in range(16):
+        index = {}
+        for i, (t, c) in enumerate(cons):
+            if t:
+                index.setdefault((frozenset(t.items()), c), i)
+        found = None
+        for i, (t, c) in enumerate(cons):
+            if not t:
+                continue
+            neg = (frozenset((a, -v) for a, v in t.items()), -c)
+            j = index.get(neg)
+            if j is None or j == i:
+                continue
+            units = [a for a, v in t.items() if v == 1 or v == -1]
+            if not units:
+                continue
+            found = (i, j, max(units))  # later interned atoms (fresh values) first
+            break
+        if found is None:
+            break
+        i, j, x = found
+        t, c = cons[i]
+        k = t[x]
+        rest = {a: -k * v for a, v in t.items() if a != x}
+        rc = -k * c
+        new = []
+        for idx, (t2, c2) in enumerate(cons):
+            if idx == i or idx == j:
+                continue
+            if x in t2:
+                m = t2[x]
+                nt = {a: v for a, v in t2.items() if a != x}
+                for a, v in rest.items():
+                    nv = nt.get(a, 0) + m * v
+                    if nv:
+                        nt[a] = nv
+                    else:
+                        nt.pop(a, None)
+                new.append((nt, c2 + m * rc))
+            else:
+                new.append((t2, c2))
+        cons = new
+    return cons
+
+
 def fm_unsat(cons, max_cons=600):
-    """cons: list of (dict, c) each meaning >= 0.  Returns True if provably unsatisfiable over Z."""
+    """cons: list of (dict atom->coef, c) each meaning >= 0.  True if provably unsatisfiable over Z."""
+    # intern atoms as small ints (hashing nested tuples repeatedly is expensive)
+    ids = {}
+    icons = []
+    for t, c in cons:
+        nt = {}
+        for a, v in t.items():
+            i = ids.get(a)
+            if i is None:
+                i = ids[a] = len(ids)
+            nt[i] = v
+        icons.append((nt, c))
+    icons = _subst_equalities(icons)
     cur = []
     seen = set()
-    for t, c in cons:
-        t, c = _norm(dict(t), c)
+    for t, c in icons:
+        t, c = _norm(t, c)
         if not t:
             if c < 0:
                 return True
@@ -204,7 +264,6 @@ def fm_unsat(cons, max_cons=600):
         seen.add(k)
         cur.append((t, c))
     while True:
-        # collect vars
         pos = {}
         neg = {}
         for i, (t, c) in enumerate(cur):
@@ -213,7 +272,6 @@ def fm_unsat(cons, max_cons=600):
         allv = set(pos) | set(neg)
         if not allv:
             return False
-        # vars appearing with only one sign: drop their constraints (cannot contribute to contradiction)
         onesided = [a for a in allv if a not in pos or a not in neg]
         if onesided:
             drop = set()
@@ -224,11 +282,13 @@ def fm_unsat(cons, max_cons=600):
             if not cur:
                 return False
             continue
-        # choose var minimizing product
-        best = min(allv, key=lambda a: (len(pos[a]) * len(neg[a]) - len(pos[a]) - len(neg[a]), repr(a)))
+        best = min(allv, key=lambda a: (len(pos[a]) * len(neg[a]) - len(pos[a]) - len(neg[a]), a))
         P = pos[best]
         N = neg[best]
-        keep = [x for i, x in enumerate(cur) if best not in x[0]]
+        if len(P) * len(N) > 4000:
+            return False
+        involved = set(P) | set(N)
+        keep = [x for i, x in enumerate(cur) if i not in involved]
         newc = []
         for i in P:
             tp, cp = cur[i]
@@ -236,10 +296,9 @@ def fm_unsat(cons, max_cons=600):
             for j in N:
                 tn, cn = cur[j]
                 kn = -tn[best]
-                # kn*P + kp*N eliminates best
                 t = {}
                 for a, v in tp.items():
-                    if a is not best and a != best:
+                    if a != best:
                         t[a] = v * kn
                 for a, v in tn.items():
                     if a != best:
@@ -255,15 +314,16 @@ def fm_unsat(cons, max_cons=600):
                         return True
                     continue
                 newc.append((t, c))
+        for i in involved:
+            t, c = cur[i]
+            seen.discard((frozenset(t.items()), c))
         cur = keep
-        seen = set((frozenset(t.items()), c) for t, c in cur)
         for t, c in newc:
             k = (frozenset(t.items()), c)
             if k not in seen:
                 seen.add(k)
                 cur.append((t, c))
         if len(cur) > max_cons:
-            # keep it sound: give up (cannot prove unsat)
             return False
 
 
@@ -288,6 +348,141 @@ def relevant(cons, seed_atoms, extra_rounds=8):
     return [cons[i] for i in range(len(cons)) if chosen[i]], atoms
 
 
+_DEFS = {}
+
+
+def atom_defs(a):
+    """definitional facts (list of (dict,c) >= 0) of a structured atom; valid in every state"""
+    d = _DEFS.get(a)
+    if d is not None:
+        return d
+    d = []
+    if isinstance(a, tuple) and a:
+        k = a[0]
+        try:
+            if k == "and" and len(a) == 3 and isinstance(a[2], int):
+                x = lin_from_key(a[1])
+                c = a[2]
+                lo, hi = static_bounds(x)
+                if lo is not None and lo >= 0:
+                    A = Lin.atom(a)
+                    d.append(x - A)
+                    if c & (c + 1) == 0:
+                        kb = c.bit_length()
+                        q = reg_atom(("shr", a[1], kb), 0, None if hi is None else hi >> kb,
+                                     None if hi is None else (1 << (hi >> kb).bit_length()) - 1)
+                        e = x - A - Lin.atom(q).scale(c + 1)
+                        d.append(e)
+                        d.append(-e)
+                    bits = [b for b in range(c.bit_length()) if (c >> b) & 1]
+                    if 2 <= len(bits) <= 8:
+                        e = A
+                        for b in bits:
+                            ba = reg_atom(("and", a[1], 1 << b), 0, 1 << b, 1 << b)
+                            e = e - Lin.atom(ba)
+                        d.append(e)
+                        d.append(-e)
+            elif k == "shr" and len(a) == 3 and isinstance(a[2], int):
+                x = lin_from_key(a[1])
+                p = 1 << a[2]
+                lo, hi = static_bounds(x)
+                if lo is not None and lo >= 0:
+                    A = Lin.atom(a)
+                    d.append(x - A.scale(p))
+                    d.append(A.scale(p) + (p - 1) - x)
+            elif k == "div" and len(a) == 3 and isinstance(a[2], int):
+                x = lin_from_key(a[1])
+                p = a[2]
+                A = Lin.atom(a)
+                d.append(x - A.scale(p))
+                d.append(A.scale(p) + (p - 1) - x)
+            elif k == "rem" and len(a) == 3 and isinstance(a[2], int):
+                x = lin_from_key(a[1])
+                c = a[2]
+                lo, hi = static_bounds(x)
+                q = reg_atom(("div", a[1], c), 0, None if hi is None else hi // c)
+                e = x - Lin.atom(a) - Lin.atom(q).scale(c)
+                d.append(e)
+                d.append(-e)
+        except Exception:
+            d = []
+    d = [(l.t, l.c) for l in d]
+    _DEFS[a] = d
+    return d
+
+
+def select_with_defs(cons, seed_atoms):
+    """relevant constraints + definitional facts + static bounds for the atom closure of seed"""
+    seeds = set(seed_atoms)
+    defs = []
+    done = set()
+    sel, atoms = [], set()
+    for _ in range(4):
+        sel, atoms = relevant(list(cons) + defs, seeds)
+        new = [a for a in (set(atoms) | seeds) if a not in done]
+        if not new:
+            break
+        added = False
+        for a in new:
+            done.add(a)
+            dd = atom_defs(a)
+            if dd:
+                defs.extend(dd)
+                added = True
+        if not added:
+            break
+    sel = list(sel)
+    for a in set(atoms) | seeds:
+        lo = ATOM_LO.get(a)
+        hi = ATOM_HI.get(a)
+        if lo is not None:
+            sel.append(({a: 1}, -lo))
+        if hi is not None:
+            sel.append(({a: -1}, hi))
+    return sel, atoms
+
+
+def quick_lower_bound(cons, goal):
+    """lower bound of goal using static bounds refined by single-atom facts"""
+    lo_ = {}
+    hi_ = {}
+    ga = goal.t
+    for t, c in cons:
+        if len(t) == 1:
+            (a, k), = t.items()
+            if a not in ga:
+                continue
+            # k*a + c >= 0
+            if k > 0:
+                b = -(c // k)  # a >= ceil(-c/k)
+                if lo_.get(a) is None or b > lo_[a]:
+                    lo_[a] = b
+            else:
+                b = c // (-k)  # a <= floor(c/-k)
+                if hi_.get(a) is None or b < hi_[a]:
+                    hi_[a] = b
+    lo = goal.c
+    for a, k in ga.items():
+        alo = ATOM_LO.get(a)
+        ahi = ATOM_HI.get(a)
+        if a in lo_ and (alo is None or lo_[a] > alo):
+            alo = lo_[a]
+        if a in hi_ and (ahi is None or hi_[a] < ahi):
+            ahi = hi_[a]
+        if k > 0:
+            if alo is None:
+                return None
+            lo += k * alo
+        else:
+            if ahi is None:
+                return None
+            lo += k * ahi
+    return lo
+
+
+MAX_TERMS = 14
+
+
 def entails_ge0(facts, goal, neqs=()):
     """facts: iterable of Lin (each >= 0).  goal: Lin.  True if facts |= goal >= 0."""
     # quick: static bounds
@@ -295,17 +490,14 @@ def entails_ge0(facts, goal, neqs=()):
     if lo is not None and lo >= 0:
         return True
     cons = [(f.t, f.c) for f in facts]
+    ql = quick_lower_bound(cons, goal)
+    if ql is not None and ql >= 0:
+        return True
+    if len(cons) > 30 and len(goal.t) <= MAX_TERMS:
+        cons = [x for x in cons if len(x[0]) <= MAX_TERMS]
     # negated goal: -goal - 1 >= 0
     ng = (-goal) - 1
-    sel, atoms = relevant(cons, set(goal.atoms()))
-    # add static bounds for all atoms involved
-    for a in atoms:
-        lo = ATOM_LO.get(a)
-        hi = ATOM_HI.get(a)
-        if lo is not None:
-            sel.append(({a: 1}, -lo))
-        if hi is not None:
-            sel.append(({a: -1}, hi))
+    sel, atoms = select_with_defs(cons, set(goal.atoms()))
     sel.append((ng.t, ng.c))
     return fm_unsat(sel)
 
